@@ -83,6 +83,9 @@ def tip5 : Handler
       pure ("ok:" ++ fmtList ((Tip5.genFn (v.map UInt64.ofNat)).toList.map UInt64.toNat))
   | "fermat", [.nat b] => some s!"ok:{offset_fermat_cube_map b}"
   | "lut", [.nat b] => if h : b < 256 then some s!"ok:{Tip5.lookup ⟨b, h⟩}" else none
+  | "newstate", [.sym "fixed"] =>
+      some ("ok:" ++ fmtRaw (Tip5.fixedLengthState (Vector.replicate 10 Tip5.zero)))
+  | "newstate", [.sym "varlen"] => some ("ok:" ++ fmtRaw Tip5.varlenState)
   | "const", [.sym "lookup_table"] => some ("ok:" ++ fmtList LOOKUP_TABLE)
   | "const", [.sym "round_constants"] => some ("ok:" ++ fmtList ROUND_CONSTANTS)
   | "const", [.sym "mds_first_column"] => some ("ok:" ++ fmtList MDS_MATRIX_FIRST_COLUMN)
